@@ -229,7 +229,7 @@ def nontrivial(c): return len(c["desc"]["objects"]) >= 1
 # ------------------------------------------------------------------ generators
 def gen_cases(rng, tier):
     cases = []
-    n_exp, n_re = {"quick": (60, 50), "thorough": (600, 500), "search": (150, 100)}[tier]
+    n_exp, n_re = {"quick": (60, 50), "thorough": (1000, 800), "search": (150, 100)}[tier]
     for i in range(n_exp):
         desc = odgen.gen_desc(rng, "built", rng.choice(["small", "normal", "normal", "large"] if i % 10 else ["large"]))
         if i % 7 == 0:                                 # neither node id nor bit rate
